@@ -24,6 +24,8 @@ PY = sys.executable
 
 LEVELS = {"C03": "fault_enumeration", "C04": "fault_enumeration", "C17": "fault_enumeration"}
 
+_CFG = {"text": None}     # how the batch was run (a description, written into the evidence)
+
 RULES = {
     "default": ("one evaluation = one simulated run (a seeded history of solver calls with its "
                 "faults) executed against the real skglm source; distinct = distinct tuples "
@@ -68,6 +70,8 @@ def run_check(check, tier, registry):
     cspec = getattr(registry, "CHECK_TIERS", {}).get(check, {}).get(tier, {})
     budget = float(os.environ.get("VERIF_BUDGET_S", cspec.get("budget_s", spec["budget_s"])))
     phases = cspec.get("phases", spec["phases"])
+    _CFG["text"] = (f"workers={workers} budget_s={budget:.0f} phases="
+                    + ",".join(f"{e}:{sh:g}" for e, sh in phases))
     os.makedirs(os.path.join(VERIF, ".work"), exist_ok=True)
     workdir = tempfile.mkdtemp(prefix=f"{check}-{tier}-", dir=os.path.join(VERIF, ".work"))
     env = _env()
@@ -114,7 +118,8 @@ def run_check(check, tier, registry):
         harness_notes.append("reference-model self-test failed: " + (st_out or "")[-600:])
     recs = read_records(workdir)
     result = summarise(check, tier, seed, recs, harness_notes, workdir, t0, registry)
-    shutil.rmtree(workdir, ignore_errors=True)
+    if os.environ.get("VERIF_KEEP_WORK") != "1":     # (debugging aid: keep the raw run records)
+        shutil.rmtree(workdir, ignore_errors=True)
     return result
 
 
@@ -245,6 +250,7 @@ def summarise(check, tier, seed, recs, harness_notes, workdir, t0, registry):
         distinct_nontrivial=int(len(distinct)),
         rule=registry.rule(check),
         samples=samples,
+        run_config=_CFG["text"],
         runs_per_hour=int(evaluations / max(wall, 1e-9) * 3600),
         runs_by_engine=by_engine,
         logical_time=logical,
@@ -252,9 +258,17 @@ def summarise(check, tier, seed, recs, harness_notes, workdir, t0, registry):
         fault_kinds_fired=fired,
         probes=probes,
         stopping_points=int(counts.get("stops", 0)),
-        inconclusive_runs=len(inconclusive),
-        worker_deaths=len(died),
-        harness_errors=len(harness),
+        # runs that produced no verdict, listed run by run (seed + run index + engine regenerate
+        # each with sim.mkplan).  They are not part of `evaluations` and are not a measure of the
+        # work done: a wall-cap hit depends on the load of the machine, so the lists are
+        # descriptive, and the exit status (2 above 10 % of the compiled runs) is what judges them
+        runs_without_verdict=dict(
+            wall_cap=[dict(run=r["run"], engine=r["_engine"], why=r["inconclusive"])
+                      for r in inconclusive],
+            worker_died=[dict(run=r["run"], engine=r["_engine"], code=r["worker_died"])
+                         for r in died],
+            harness_error=[dict(run=r["run"], engine=r["_engine"], error=str(r["harness_error"])[:200])
+                           for r in harness]),
         seam_missing=sorted(seam_missing),
         known_findings_matched={k: n for k, (f, n) in known_lines.items()},
         engine_pairs_compared=getattr(compare_engines, "pairs", 0) if check == "C20" else None,
